@@ -95,6 +95,9 @@ func genPkgInput(r *Rand, w *Workload, pkg string, format string, opts GenOpts) 
 			// their siblings, wrapped in a forced envelope
 			doc = cueDefRef.ReplaceAllString(doc, "$1")
 			in.ForcedEnvelope = Pick(sr, []string{"Envelope", "DataQuery"})
+		} else if sr.Chance(1, 6) {
+			// an envelope forced onto a file that holds definitions only
+			in.ForcedEnvelope = Pick(sr, []string{"Envelope", "DataQuery"})
 		}
 		w.Files[dir+"/schema.cue"] = doc
 		return in, p
@@ -205,6 +208,11 @@ func GenWorkload(r *Rand, corpus []CorpusInput, maxLangs int, opts GenOpts) *Wor
 	if r.Chance(1, 3) {
 		w.Params = map[string]string{"alpha": "x", "beta": "%alpha%/y"}
 		w.TplData = map[string]string{"Version": "%beta%", "Other": "%alpha%"}
+		if sr := r.Side("cli-params"); sr.Chance(1, 3) {
+			// `--parameters` overriding a parameter of the file and referring to others
+			w.CLIParams = map[string]string{"alpha": "cli", "gamma": "%alpha%-%beta%", "beta": "%alpha%/z"}
+			w.TplData["Third"] = "%gamma%"
+		}
 	}
 	w.Name = strings.Join(names, "+") + " -> " + strings.Join(w.LangNames(), ",") + fmt.Sprintf(" t=%v b=%v c=%v a=%v", w.Types, w.Builders, w.Converters, w.APIRef)
 	return w
@@ -347,6 +355,47 @@ func GenCueImportsWorkload(r *Rand) *Workload {
 	})
 	w.Languages = GenLanguages(r, 1, 3)
 	w.Name = "cue-imports -> " + strings.Join(w.LangNames(), ",")
+	return w
+}
+
+// GenSharedOptionWorkload: an option added to a builder by a veneer written for
+// all languages, and a rule written for one language only that reshapes that
+// option. The rewriter (and the rules it holds) is built once and serves every
+// language of the run.
+func GenSharedOptionWorkload(r *Rand) *Workload {
+	w := &Workload{Files: map[string]string{}, Types: true, Builders: true}
+	p := &WPackage{Name: "opts", Objects: []WObject{
+		{Name: "Thing", T: &WType{K: "struct", Fields: []WField{
+			{Name: "title", T: &WType{K: "string"}, Required: true},
+			{Name: "labels", T: &WType{K: "array", Elem: &WType{K: "string"}}},
+			{Name: "flags", T: &WType{K: "map", Elem: &WType{K: "bool"}}},
+		}}},
+	}}
+	w.Files["in/opts/schema.json"] = p.RenderJSONSchema()
+	w.Inputs = []InputSpec{{Kind: "jsonschema", Path: "in/opts/schema.json", Package: "opts"}}
+	arr := "{kind: array, array: {value_type: {kind: scalar, scalar: {scalar_kind: string}}}}"
+	mp := "{kind: map, map: {index_type: {kind: scalar, scalar: {scalar_kind: string}}, value_type: {kind: scalar, scalar: {scalar_kind: bool}}}}"
+	shape := Pick(r, []string{"array", "map"})
+	field, typ, rule := "labels", arr, "array_to_append"
+	if shape == "map" {
+		field, typ, rule = "flags", mp, "map_to_index"
+	}
+	w.Files["cfg/veneers/all.yaml"] = fmt.Sprintf("language: all\npackage: opts\nbuilders:\n  - add_option:\n      by_object: Thing\n      option:\n        name: extra\n        comments: ['an added option']\n        arguments:\n          - name: %[1]s\n            type: %[2]s\n        assignments:\n          - path: %[1]s\n            method: direct\n            value:\n              argument:\n                name: %[1]s\n                type: %[2]s\n", field, typ)
+	only := Pick(r, []string{"go", "typescript", "python"})
+	w.Files["cfg/veneers/one.yaml"] = fmt.Sprintf("language: %s\npackage: opts\noptions:\n  - %s:\n      by_name: Thing.extra\n", only, rule)
+	w.VeneerDirs = []string{"cfg/veneers"}
+	langs := Shuffled(r, []string{"go", "typescript", "python", "java", "php"})[:2+r.Intn(2)]
+	have := false
+	for _, l := range langs {
+		have = have || l == only
+	}
+	if !have {
+		langs = append(langs, only)
+	}
+	for _, l := range langs {
+		w.Languages = append(w.Languages, LangSpec{Name: l, Flags: map[string]string{}})
+	}
+	w.Name = "shared-option:" + shape + ":" + only + " -> " + strings.Join(w.LangNames(), ",")
 	return w
 }
 
